@@ -289,6 +289,14 @@ func signing(r *ev.Run) {
 					return
 				}
 			}
+			// "without contacting later endpoints" holds below the RPC level too: no TLS handshake reaches an endpoint behind
+			// the one that signed
+			if firstOK >= 0 && i > firstOK && kinds[i] != "refused" {
+				if hs := byIP[ip].Handshakes(); len(hs) > 0 {
+					r.Violation(c, "later-endpoint-contacted:"+sig, fmt.Sprintf("endpoint #%d (%s) completed %d TLS handshake(s) although endpoint #%d had signed", i, ip, len(hs), firstOK), rec)
+					return
+				}
+			}
 			expectContact := firstOK < 0 || i <= firstOK
 			if expectContact && len(calls) == 0 {
 				r.Violation(c, "endpoint-skipped:"+sig, fmt.Sprintf("endpoint #%d (%s) never received the request although no earlier endpoint succeeded; %s", i, ip, rec.Result), rec)
